@@ -98,7 +98,7 @@ Definition modelled_sites_match (sites : list logsite) : bool :=
 (* the structural facts around PASS that the model and the whitelist rely on *)
 Definition password_use_ok (u : string * string) : bool :=
   (String.eqb (fst u) "login" && String.prefix "concat:" (snd u))
-  || (String.eqb (fst u) "context" && String.eqb (snd u) "arg:client.login").
+  || (String.eqb (fst u) "context" && String.eqb (snd u) "arg:@obj.login").
 
 Definition check_pass_facts
     (translator_ok : bool) (censor : list text) (guard_count : Z)
